@@ -567,3 +567,61 @@ def r12(ctx, R):
         R.check(has_tau and not lacking, f'{ci.name}.compute_residual :: every locally assembled defect adds tau under `tau[..] is not None`', w, 'res += tau[m] if tau[m] is not None, in every arm', f'accumulators without a tau term: {lacking}' if lacking else 'no guarded tau term')
     if n < 5:
         raise AnalysisError(f'C03.R12: only {n} self-assembled residuals found')
+
+
+def _level_refs(node):
+    out = []
+    for n in ast.walk(node):
+        if isinstance(n, ast.Subscript) and isinstance(n.value, ast.Attribute) and n.value.attr == 'levels' and ast.unparse(n.value) in ('S.levels', 'self.S.levels'):
+            out.append((ast.unparse(n.slice), n.lineno))
+    return out
+
+
+def sweep_loop_levels(fn):
+    """-> [(loop lineno, {index text: [linenos]})] for every loop over nsweeps in fn, the reset of the sweep counter right before it included"""
+    res = []
+    for body in [getattr(n, a) for n in ast.walk(fn) for a in ('body', 'orelse') if isinstance(getattr(n, a, None), list)]:
+        for i, s in enumerate(body):
+            if isinstance(s, ast.For) and 'nsweeps' in ast.unparse(s.iter):
+                refs = _level_refs(s)
+                if i > 0:
+                    for a in ast.walk(body[i - 1]):
+                        if isinstance(a, ast.Assign) and ast.unparse(a.targets[0]).endswith('.status.sweep'):
+                            refs += _level_refs(a)
+                # `self.nsweeps[i]`: the per-level sweep counts the serial controller keeps
+                refs += [(ast.unparse(n.slice), n.lineno) for n in ast.walk(s.iter) if isinstance(n, ast.Subscript) and ast.unparse(n.value) == 'self.nsweeps']
+                by = {}
+                for idx, ln in refs:
+                    by.setdefault(idx, []).append(ln)
+                res.append((s.lineno, by))
+    return res
+
+
+_R14_CONTROL = '''
+def it_fine(self, S):
+    S.levels[0].status.sweep = 0
+    for k in range(S.levels[0].params.nsweeps):
+        S.levels[1].status.sweep += 1
+        S.levels[0].sweep.update_nodes()
+        S.levels[0].sweep.compute_residual(stage='IT_FINE')
+'''
+
+
+@rule('C03', 'C03.R14', 'one sweep loop, one level: inside every `for k in range(..nsweeps)` loop of the controllers (and in the reset of the sweep counter right before it) all references `S.levels[i]` name the SAME level - the number of sweeps, the sweep counter that the convergence test reads, the refreshed preconditioner coefficients, the node update and the residual belong to the level that is swept', floor=6)
+def r14(ctx, R):
+    repo = ctx.repo
+    ctl = sweep_loop_levels(ast.parse(_R14_CONTROL).body[0])
+    if len(ctl) != 1 or len(ctl[0][1]) != 2:
+        raise AnalysisError('C03.R14: the embedded control (sweep counter of another level) is not recognised')
+    n = 0
+    CCD = 'pySDC/implementations/controller_classes/'
+    for rel, cn in ((CCD + 'controller_nonMPI.py', 'controller_nonMPI'), (CCD + 'controller_MPI.py', 'controller_MPI'), (CCD + 'controller_ParaDiag_nonMPI.py', 'controller_ParaDiag_nonMPI')):
+        ci = repo.cls(rel, cn)
+        for name, fn in ci.methods.items():
+            for line, by in sweep_loop_levels(fn):
+                n += 1
+                w = f'{rel}:{cn}.{name}'
+                R.fn(w)
+                R.check(len(by) == 1, f'{cn}.{name} :: sweep loop #{n}: every S.levels[..] of the loop is the swept level', w, 'one level index in the loop head, the counter, the coefficient refresh, the update and the residual', {k: len(v) for k, v in by.items()})
+    if n < 6:
+        raise AnalysisError(f'C03.R14: only {n} sweep loops found in the controllers')
